@@ -399,12 +399,12 @@ def make_executor(script: Script, is_map, completion_config, max_concurrency):
     return ParallelExecutor.from_callables(fns, ParallelConfig(max_concurrency=max_concurrency, completion_config=completion_config))
 
 
-def run_execute(ex, world: World, state=None):
+def run_execute(ex, world: World, state=None, parent_id="mapop"):
     """returns ('ret', BatchResult) | ('suspend', exc) | ('raise', exc) | ('deadlock', d)"""
     from harness.C08 import mk_ctx
 
     st = state or FakeState(None)
-    exec_ctx = mk_ctx(st).create_child_context("mapop")
+    exec_ctx = mk_ctx(st).create_child_context(parent_id)
     try:
         r = ex.execute(st, exec_ctx)
         return ("ret", r), st
